@@ -262,7 +262,10 @@ def run(ctx, model=None):
         for i in range(k):
             r = rng.random()
             if r < 0.6:
-                g = gen.desc(gen.stopping_game(rng, n_inner=rng.randint(1, 8)))
+                g0 = gen.stopping_game(rng, n_inner=rng.randint(1, 8))
+                if rng.random() < 0.35:
+                    g0 = gen.with_odd_labels(g0, rng)[0]     # action names with braces, %, quotes, backslash, newline
+                g = gen.desc(g0)
             elif r < 0.8:
                 g = gen.desc(gen.dead_shape_game(rng, rng.choice([P1, PR]), (1, 0, 1)))
             else:
